@@ -603,20 +603,41 @@ def _live_in(lp, v: str) -> bool:
         return False
     if first == "r":
         return True
-    for s in lp.body:
-        order.clear()
-        if isinstance(s, (ast.If, ast.While, ast.For, ast.Try, ast.With, ast.Match)):
-            # a compound statement: v live-in if it is mentioned at all
-            if any(isinstance(n, ast.Name) and n.id == v for n in ast.walk(s)):
-                return True
-            continue
-        ev(s)
-        first = next((k for k, name in order if name == v), None)
-        if first == "w":
-            return False
-        if first == "r":
-            return True
-    return False
+    def first_access(block):
+        """'r' / 'w': how v is first touched on every way through the block that touches it ('r' if some way reads it first);
+        None: not touched on some way that goes on (the caller looks further)"""
+        for s in block:
+            order.clear()
+            if isinstance(s, ast.If):
+                ev(s.test)
+                fa = next((k for k, name in order if name == v), None)
+                if fa is not None:
+                    return fa
+                a, b = first_access(s.body), first_access(s.orelse)
+                if a == "r" or b == "r":
+                    return "r"
+                if a == "w" and b == "w":
+                    return "w"
+                # written on one arm (or on none): what follows decides for the other arm
+                def ends_(blk):
+                    return bool(blk) and isinstance(blk[-1], (ast.Return, ast.Raise, ast.Break, ast.Continue))
+                if (a == "w" and (ends_(s.orelse))) or (b == "w" and ends_(s.body)):
+                    return "w"
+                if a == "w" or b == "w":
+                    rest = first_access(block[block.index(s) + 1:])
+                    return "r" if rest == "r" else "w" if rest == "w" else None
+                continue
+            if isinstance(s, (ast.While, ast.For, ast.Try, ast.With, ast.Match)):
+                # a loop / try / with / match: v live-in if it is mentioned at all
+                if any(isinstance(n, ast.Name) and n.id == v for n in ast.walk(s)):
+                    return "r"
+                continue
+            ev(s)
+            fa = next((k for k, name in order if name == v), None)
+            if fa is not None:
+                return fa
+        return None
+    return first_access(list(lp.body)) == "r"
 
 
 # ---------------------------------------------------------------------------------------------------------------------
